@@ -308,6 +308,24 @@ func R21Progress(c *Ctx) {
 			construct := "loop reads a token on every way round"
 			if !free {
 				c.R.Ok(rule, fname, construct, c.pos(pos), "every path from the loop header back to it passes a token read (directly or through a must-consume callee)", true)
+				// Read does not advance past the end-of-input token: the loop must not be able to go round on it
+				c2 := "loop cannot go round on the end-of-input token"
+				if w := c.spinsAtEOF(fn, l); w == nil {
+					c.R.Ok(rule, fname, c2, c.pos(pos), "with every token seen in the loop being the end-of-input token, every way back to the loop header is closed by a test of that token's type", true)
+				} else if why, ok := reviewed["|"+fname+"|"+c2]; ok {
+					c.R.Ok(rule, fname, c2, c.pos(pos), "reviewed: "+why, true)
+				} else {
+					var ws []string
+					for _, b := range w {
+						for _, in := range b.Instrs {
+							if in.Pos().IsValid() {
+								ws = append(ws, c.pos(in.Pos()))
+								break
+							}
+						}
+					}
+					c.R.Bad(rule, fname, c2, c.pos(pos), "Read() does not advance past the end-of-input token, and with that token in hand there is still a way round this loop: on an input that ends here (an unclosed bracket, a truncated file) the parser never returns", ws...)
+				}
 				continue
 			}
 			if why, ok := reviewed["|"+fname+"|"+construct]; ok {
@@ -508,4 +526,253 @@ func (c *Ctx) exitsOnEOF(fn *ssa.Function, l *natLoop, m map[*ssa.Function]bool)
 		}
 	}
 	return false
+}
+
+// spinsAtEOF: assuming every token looked at inside the loop is the end-of-input token (Read does not advance
+// past it, so once it is reached every later Peek/Read yields it again), can the loop header be reached again?
+// Conditions that compare the Type of a token obtained inside the loop with a constant are decided under that
+// assumption (== EOF true, == anything else false; type assertions of template tokens likewise); all other
+// conditions are left open. Returns a witness path when the loop may spin.
+func (c *Ctx) spinsAtEOF(fn *ssa.Function, l *natLoop) []*ssa.BasicBlock {
+	eof := map[int64]bool{}
+	for _, pn := range [][2]string{{PkgHclsyntax, "TokenEOF"}, {PkgJSON, "tokenEOF"}} {
+		if v, ok := c.pkgConst(pn[0], pn[1]); ok {
+			eof[v] = true
+		}
+	}
+	isTokCall := func(v ssa.Value) bool {
+		call, ok := v.(*ssa.Call)
+		if !ok || !l.body[call.Block()] {
+			return false
+		}
+		n := CalleeName(call)
+		return strings.HasSuffix(n, "peeker).Peek") || strings.HasSuffix(n, "peeker).Read") || strings.HasSuffix(n, "templateParser).Peek") || strings.HasSuffix(n, "templateParser).Read")
+	}
+	// a value that is the Type field of a token obtained in the loop
+	var isTokType func(v ssa.Value, d int) bool
+	isTokType = func(v ssa.Value, d int) bool {
+		if d > 6 {
+			return false
+		}
+		switch x := v.(type) {
+		case *ssa.Field:
+			if _, f, _, ok := FieldOf(x); ok && f == "Type" {
+				return isTokCall(x.X) || isTokPhi(x.X, isTokCall)
+			}
+		case *ssa.UnOp:
+			if x.Op == token.MUL {
+				if _, f, base, ok := FieldOf(x.X); ok && f == "Type" {
+					// spilled token: the cell's stores are token calls
+					if al, ok := base.(*ssa.Alloc); ok {
+						okAll, any := true, false
+						for _, r := range *al.Referrers() {
+							if st, ok := r.(*ssa.Store); ok && st.Addr == ssa.Value(al) {
+								if _, isParam := st.Val.(*ssa.Parameter); isParam {
+									continue // the first token, handed in by the caller
+								}
+								any = true
+								if !isTokCall(st.Val) {
+									okAll = false
+								}
+							}
+						}
+						return okAll && any
+					}
+				}
+				// a local copy of the type (ty := tok.Type)
+				if al, ok := x.X.(*ssa.Alloc); ok {
+					okAll, any := true, false
+					for _, r := range *al.Referrers() {
+						if st, ok := r.(*ssa.Store); ok && st.Addr == ssa.Value(al) {
+							any = true
+							if !isTokType(st.Val, d+1) {
+								okAll = false
+							}
+						}
+					}
+					return okAll && any
+				}
+			}
+		case *ssa.Phi:
+			// ty normalised on some paths (ty = TokenTemplateInterp): not purely a token type
+			return false
+		}
+		return false
+	}
+	decide := func(cond ssa.Value) (bool, bool) { // (value, known)
+		cond, truth := StripNot(cond, true)
+		switch x := cond.(type) {
+		case *ssa.BinOp:
+			if x.Op != token.EQL && x.Op != token.NEQ {
+				return false, false
+			}
+			var k int64
+			var okc bool
+			if isTokType(x.X, 0) {
+				k, okc = ConstInt(x.Y)
+			} else if isTokType(x.Y, 0) {
+				k, okc = ConstInt(x.X)
+			}
+			if !okc {
+				return false, false
+			}
+			v := eof[k]
+			if x.Op == token.NEQ {
+				v = !v
+			}
+			return v == truth, true
+		case *ssa.Extract:
+			if ta, ok := x.Tuple.(*ssa.TypeAssert); ok && x.Index == 1 && ta.CommaOk && (isTokCall(ta.X)) {
+				v := strings.HasSuffix(ta.AssertedType.String(), "templateEndToken")
+				return v == truth, true
+			}
+		}
+		return false, false
+	}
+	seen := map[*ssa.BasicBlock]bool{}
+	var witness []*ssa.BasicBlock
+	var walk func(b *ssa.BasicBlock, path []*ssa.BasicBlock) bool
+	walk = func(b *ssa.BasicBlock, path []*ssa.BasicBlock) bool {
+		succs := b.Succs
+		if len(b.Instrs) > 0 {
+			if iff, ok := b.Instrs[len(b.Instrs)-1].(*ssa.If); ok {
+				if v, known := decide(iff.Cond); known {
+					if v {
+						succs = b.Succs[:1]
+					} else {
+						succs = b.Succs[1:2]
+					}
+				}
+			}
+		}
+		for _, s := range succs {
+			if !l.body[s] {
+				continue
+			}
+			if s == l.header {
+				witness = append(append([]*ssa.BasicBlock{}, path...), b)
+				return true
+			}
+			if seen[s] {
+				continue
+			}
+			seen[s] = true
+			if walk(s, append(path, b)) {
+				return true
+			}
+		}
+		return false
+	}
+	if walk(l.header, nil) {
+		return witness
+	}
+	return nil
+}
+
+// isTokPhi: a phi all of whose edges that are token reads inside the loop — edges that enter from outside the
+// loop (the first token, handed in by the caller) do not matter for the question whether the loop can spin forever.
+func isTokPhi(v ssa.Value, isTokCall func(ssa.Value) bool) bool {
+	ph, ok := v.(*ssa.Phi)
+	if !ok {
+		return false
+	}
+	n := 0
+	for _, e := range ph.Edges {
+		if isTokCall(e) {
+			n++
+			continue
+		}
+		if _, isParam := e.(*ssa.Parameter); isParam {
+			continue
+		}
+		return false
+	}
+	return n > 0
+}
+
+// R21Balance — the include-newlines stack is balanced on every path.
+func R21Balance(c *Ctx) {
+	const rule = "R21-newline-stack"
+	c.R.Rule(rule, "in every hclsyntax function that calls PushIncludeNewlines / PopIncludeNewlines the stack depth relative to the function's entry is the same on every path into a block (in particular around every loop) and zero at every return, deferred pops included: the public Parse* entry points end with AssertEmptyIncludeNewlinesStack, which panics on a leftover entry, and an extra pop indexes an empty slice", 7)
+	for _, fn := range c.P.ModuleFuncs(func(p string) bool { return p == PkgHclsyntax }) {
+		if fn.Blocks == nil {
+			continue
+		}
+		uses := false
+		EachCall(fn, func(call ssa.CallInstruction) {
+			n := CalleeName(call)
+			if strings.HasSuffix(n, "peeker).PushIncludeNewlines") || strings.HasSuffix(n, "peeker).PopIncludeNewlines") {
+				uses = true
+			}
+		})
+		if !uses || strings.HasSuffix(FuncShort(fn), "peeker).PushIncludeNewlines") || strings.HasSuffix(FuncShort(fn), "peeker).PopIncludeNewlines") {
+			continue
+		}
+		fname := FuncShort(fn)
+		type state struct {
+			depth, deferred int
+			set             bool
+		}
+		in := map[*ssa.BasicBlock]*state{fn.Blocks[0]: {set: true}}
+		work := []*ssa.BasicBlock{fn.Blocks[0]}
+		bad := ""
+		var badPos token.Pos
+		for len(work) > 0 && bad == "" {
+			b := work[0]
+			work = work[1:]
+			st := *in[b]
+			for _, ins := range b.Instrs {
+				switch x := ins.(type) {
+				case *ssa.Call:
+					n := CalleeName(x)
+					if strings.HasSuffix(n, "peeker).PushIncludeNewlines") {
+						st.depth++
+					} else if strings.HasSuffix(n, "peeker).PopIncludeNewlines") {
+						st.depth--
+						if st.depth+0 < -1000 {
+							bad = "pops without end"
+						}
+					}
+				case *ssa.Defer:
+					n := CalleeName(x)
+					if strings.HasSuffix(n, "peeker).PopIncludeNewlines") {
+						st.deferred++
+					} else if strings.HasSuffix(n, "peeker).PushIncludeNewlines") {
+						st.deferred--
+					}
+				case *ssa.Return:
+					if st.depth-st.deferred != 0 {
+						bad = "a return is reached with the include-newlines stack " + itoa(st.depth-st.deferred) + " deeper than at entry"
+						badPos = x.Pos()
+					}
+				}
+			}
+			for _, s := range b.Succs {
+				if cur, ok := in[s]; ok {
+					if cur.depth != st.depth || cur.deferred != st.deferred {
+						bad = "two paths reach the same point with different stack depths (" + itoa(cur.depth-cur.deferred) + " and " + itoa(st.depth-st.deferred) + "): some way round a loop or through a branch pushes without popping (or pops twice)"
+						for _, ins := range s.Instrs {
+							if ins.Pos().IsValid() {
+								badPos = ins.Pos()
+								break
+							}
+						}
+					}
+					continue
+				}
+				ns := st
+				in[s] = &ns
+				work = append(work, s)
+			}
+		}
+		construct := "PushIncludeNewlines/PopIncludeNewlines balanced on every path"
+		if bad == "" {
+			c.R.Ok(rule, fname, construct, c.pos(fn.Pos()), "the depth is path-independent at every block and zero at every return", true)
+		} else {
+			if !badPos.IsValid() {
+				badPos = fn.Pos()
+			}
+			c.R.Bad(rule, fname, construct, c.pos(badPos), bad+": the parse ends in the panic of AssertEmptyIncludeNewlinesStack (or in an index out of range on the empty stack)")
+		}
+	}
 }
